@@ -217,8 +217,8 @@ impl Engine for FedEngine {
         Some(CheckSpec {
             property: property.to_string(),
             profile: property.to_string(),
-            runs: if quick { 6_000 } else { 200_000 },
-            wall_cap: Duration::from_secs(if quick { 50 } else { 900 }),
+            runs: if quick { 10_000 } else { 400_000 },
+            wall_cap: Duration::from_secs(if quick { 60 } else { 1500 }),
             rule: format!(
                 "one run = one simulated federation: room version 1-11 (via RoomVersionId), 2-5 servers (Ruma = real calls, Ref = reference models, Byz = rule-breaking but correctly signing), \
                  simulated clients issuing 10-40 (thorough -70) actions, transport faults, crash/restart, clock faults, observer probes; profile '{property}' biases workload and faults. {rule}. \
